@@ -1051,6 +1051,17 @@ class ExprMixin:
     def comprehension(self, e, st, fr):
         """[elt for x in L if c]  over a list L, one generator: closed form of the defining loop (order-preserving filter-map):
         ghost sigma strictly increasing with R[k] = elt(L[sigma(k)]) and c(L[sigma(k)]); ghost tau: every i with c(L[i]) is sigma(tau(i))."""
+        if (isinstance(e, ast.DictComp) and len(e.generators) == 1 and not e.generators[0].is_async and not e.generators[0].ifs
+                and isinstance(e.generators[0].target, ast.Name) and isinstance(e.key, ast.Name) and e.key.id == e.generators[0].target.id
+                and isinstance(e.value, ast.Constant) and isinstance(e.generators[0].iter, ast.Name)):
+            # {m: c for m in EnumClass} with a constant c: iteration over an Enum class yields its members in definition order, so the
+            # comprehension is the dict display {EnumClass.A: c, EnumClass.B: c, ...} (desugared on the AST, then evaluated as usual)
+            q = self.tree.resolve_name(fr.module, e.generators[0].iter.id)
+            if q in self.tree.classes and self.tree.cls(q).is_enum and self.tree.cls(q).enum_members:
+                keys = [ast.copy_location(ast.Attribute(value=e.generators[0].iter, attr=m, ctx=ast.Load()), e) for m, _ in self.tree.cls(q).enum_members]
+                disp = ast.copy_location(ast.Dict(keys=keys, values=[e.value] * len(keys)), e)
+                ast.fix_missing_locations(disp)
+                return self.e_Dict(disp, st, fr)
         if not isinstance(e, ast.ListComp) or len(e.generators) != 1 or e.generators[0].is_async or not isinstance(e.generators[0].target, ast.Name):
             raise OutOfSubset("comprehension (unsupported shape)")
         gen = e.generators[0]
